@@ -316,6 +316,9 @@ class Scheduler(Hooks):
         if dbapi is not None:
             try:
                 dbapi.execute('BEGIN')
+                # oslo.db keeps "a transaction is open" in the (shared)
+                # connection record; the other request's COMMIT cleared it
+                session.connection().info['in_transaction'] = True
             except Exception:
                 pass
         if self.observe is not None:
